@@ -20,6 +20,7 @@ struct C20TPlan
   int global_api;            // 1: free functions + process-global recorder (one run per child)
   int t0_records;            // thread 0 records too
   int sequential;            // 1: every recording thread is joined before the next starts (thread ids recur)
+  int extra_save;            // 1: the log is saved twice in a row at the end, 2: also once before anything is recorded (same file; the last file counts)
   int many_names;            // 1: event names come from a pool of 200 distinct strings (short and long), not from 4
 };
 struct C20IPlan
@@ -40,6 +41,7 @@ void c20trace_run();
 
 const C20IPlan *c20i_plan();
 int c20i_count();                      // images written in this run (each by its own thread if > 1)
+int c20i_one_after_another();          // 1: the images are written one after another by the same thread instead
 const C20IPlan *c20i_plan_n(int i);
 const char *c20_path_n(int i);
 void c20i_written();
